@@ -37,6 +37,8 @@ def parseOp (ws : List String) : Op :=
   | ["bind", h] => match hId h with | some h => .bind h | none => bad
   | ["udp_send", h] => match hId h with | some h => .udpSend h | none => bad
   | ["work"] => .work
+  | ["work_null"] => .workNull
+  | ["udp_send_bad", h] => match hId h with | some h => .udpSendBad h | none => bad
   | ["cancel", r] => match rId r with | some r => .cancel r | none => bad
   | ["stop_loop"] => .stopLoop
   | ["update_time"] => .updateTime
@@ -68,6 +70,8 @@ def opText : Op → String
   | .bind h => s!"bind {hn h}"
   | .udpSend h => s!"udp_send {hn h}"
   | .work => "work"
+  | .workNull => "work_null"
+  | .udpSendBad h => s!"udp_send_bad {hn h}"
   | .cancel r => s!"cancel r{r}"
   | .stopLoop => "stop_loop"
   | .updateTime => "update_time"
